@@ -123,22 +123,30 @@ def run(ctx: core.Ctx):
                     {"hours": [xs[mono_bad], xs[mono_bad + 1]], "impl": [impl_m[mono_bad], impl_m[mono_bad + 1]]})
 
     # ---------------------------------------------------------------- table builders
-    loads = [rng.uniform(-5e4, 5e4) for _ in range(8760)]
-    coords = [(rng.uniform(0, 50), rng.uniform(0, 50)) for _ in range(rng.randint(1, 40))]
-    design = types.SimpleNamespace(ghe=types.SimpleNamespace(
-        hourly_extraction_ground_loads=loads, gFunction=types.SimpleNamespace(bore_locations=coords)))
-    om = OutputManager.__new__(OutputManager)
-    rows = om.get_hourly_loading_data(design)
-    ctx.case(("loadings", len(loads)), True)
-    ok = len(rows) == 8761 and all(list(rows[i + 1]) == [*oracle_label(i), i, loads[i]] for i in range(8760))
-    if not ok:
-        i = next((i for i in range(min(8760, len(rows) - 1)) if list(rows[i + 1]) != [*oracle_label(i), i, loads[i]]), None)
-        ctx.finding("loadings-rows", f"Loadings table row {i} does not echo the input load with its calendar label",
-                    {"row": i, "impl": rows[i + 1] if i is not None else len(rows)})
-    brows = OutputManager.get_borehole_location_data(design)
-    ctx.case(("borefield", len(coords)), True)
-    if [tuple(r) for r in brows[1:]] != [tuple(c) for c in coords]:
-        ctx.finding("borefield-rows", "BoreFieldData rows differ from the selected coordinates", {"coords": coords, "rows": brows[1:]})
+    # several designs in one process, on fresh and on re-used OutputManager objects: a table must
+    # echo ITS design only (shared mutable state between calls would leak rows)
+    om_shared = OutputManager.__new__(OutputManager)
+    designs = []
+    for k in range(3):
+        loads = [rng.uniform(-5e4, 5e4) for _ in range(8760)]
+        coords = [(rng.uniform(0, 50), rng.uniform(0, 50)) for _ in range(rng.randint(1, 40))]
+        designs.append((loads, coords, types.SimpleNamespace(ghe=types.SimpleNamespace(
+            hourly_extraction_ground_loads=loads, gFunction=types.SimpleNamespace(bore_locations=coords)))))
+    order = [0, 1, 2, 0, 1]
+    for call_no, k in enumerate(order):
+        loads, coords, design = designs[k]
+        om = om_shared if call_no % 2 else OutputManager.__new__(OutputManager)
+        rows = om.get_hourly_loading_data(design)
+        ctx.case(("loadings", call_no, k), True)
+        ok = len(rows) == 8761 and all(list(rows[i + 1]) == [*oracle_label(i), i, loads[i]] for i in range(8760))
+        if not ok:
+            i = next((i for i in range(min(8760, len(rows) - 1)) if list(rows[i + 1]) != [*oracle_label(i), i, loads[i]]), None)
+            ctx.finding("loadings-rows", f"Loadings table of call {call_no} (design {k}) has {len(rows) - 1} rows; row {i} does not echo the input load with its calendar label",
+                        {"call_sequence": order[: call_no + 1], "row": i, "n_rows": len(rows) - 1, "impl": rows[i + 1] if i is not None else None})
+        brows = OutputManager.get_borehole_location_data(design)
+        ctx.case(("borefield", call_no, k), True)
+        if [tuple(r) for r in brows[1:]] != [tuple(c) for c in coords]:
+            ctx.finding("borefield-rows", f"BoreFieldData rows of call {call_no} differ from the selected coordinates", {"call_sequence": order[: call_no + 1], "coords": coords, "rows": brows[1:]})
 
     # g-function table on a real GHE: strictly increasing time, same rows as the curve used by simulate
     n_ghe = 1 if ctx.tier == "quick" else 6
